@@ -10,6 +10,39 @@ def unhex(h):
     return b"" if h == "-" else bytes.fromhex(h)
 
 
+class PtyResult:
+    def __init__(self, rc, out, err):
+        self.returncode, self.stdout, self.stderr = rc, out, err
+
+
+def run_on_pty(child, script, env):
+    """run the child with its standard output on the slave side of a pseudo terminal in raw mode (no output processing, so
+    the device passes every byte through); returns what arrives on the master side"""
+    import pty
+    import tempfile
+    import tty
+    master, slave = pty.openpty()
+    tty.setraw(slave)
+    with tempfile.TemporaryFile() as fin:
+        fin.write(script)
+        fin.seek(0)
+        p = subprocess.Popen([child], stdin=fin, stdout=slave, stderr=subprocess.PIPE, env=env)
+        os.close(slave)
+        got = b""
+        while True:
+            try:
+                chunk = os.read(master, 65536)
+            except OSError:
+                break               # EIO: the slave side has been closed by the last writer
+            if not chunk:
+                break
+            got += chunk
+        err = p.stderr.read()
+        p.wait()
+        os.close(master)
+    return PtyResult(p.returncode, got, err)
+
+
 class Prop(PropBase):
     ID = "C14"
     LEVEL = "proof"
@@ -90,9 +123,19 @@ class Prop(PropBase):
         # … and in a program whose errno holds EAGAIN / EINTR (left over from something unrelated) when the terminal writes
         env_errno = dict(env, VERIF_ERRNO="1")
         runs += [(s_, env_errno) for s_ in scripts[:25]]
+        # … in a program that called std::ios::sync_with_stdio(false) before it created the channel
+        env_nosync = dict(env, VERIF_NOSYNC="1")
+        runs += [(s_, env_nosync) for s_ in scripts[:30]]
+        # … and with standard output being a terminal device (a pseudo terminal in raw mode, read by the parent from the
+        # master side) instead of a pipe
+        env_pty = dict(env, VERIF_PTY="1")
+        runs += [(s_, env_pty) for s_ in scripts[:30] if len(s_) < 50000]
         for s_, env_ in runs:
             body = s_[1:].strip()  # drop the kind letter
-            p = subprocess.run([child], input=(body + "\n").encode(), stdout=subprocess.PIPE, stderr=subprocess.PIPE, env=env_, timeout=120)
+            if env_ is env_pty:
+                p = run_on_pty(child, (body + "\n").encode(), env_)
+            else:
+                p = subprocess.run([child], input=(body + "\n").encode(), stdout=subprocess.PIPE, stderr=subprocess.PIPE, env=env_, timeout=120)
             got = p.stdout
             exp = expected.get(s_)
             if exp is None:
@@ -105,7 +148,9 @@ class Prop(PropBase):
                 samples.append({"script": s_[:200], "stdout_bytes": len(got), "expected_bytes": len(exp)})
             if not ok:
                 first = next((i for i, (x, y) in enumerate(zip(got, exp)) if x != y), min(len(got), len(exp)))
-                failures.append({"what": "child stdout differs from the capturing channel" + (" (std::cout left with pending width/fill/base)" if env_ is env_fmt else ""),
+                how = {id(env_fmt): " (std::cout left with pending width/fill/base)", id(env_errno): " (errno left at EAGAIN/EINTR)",
+                       id(env_nosync): " (after std::ios::sync_with_stdio(false))", id(env_pty): " (standard output is a raw-mode pseudo terminal)"}.get(id(env_), "")
+                failures.append({"what": "child stdout differs from the capturing channel" + how,
                                  "signature": "C14 stdout-differs",
                                  "lines": [s_[:4000]], "returncode": p.returncode, "first_difference_at": first,
                                  "stdout_hex": got[max(0, first - 8):first + 24].hex(), "expected_hex": exp[max(0, first - 8):first + 24].hex(),
